@@ -88,13 +88,17 @@ func (e *c09env) perturbations(tier string) []perturbation {
 	}
 	// a body that is itself a valid set header + record of template 300
 	bodies = append(bodies, []byte{0x01, 0x2c, 0x00, 0x0a, 1, 2, 3, 4, 5, 6})
+	// ... followed by further octets of the undecodable set (a cut inside those leaves the inner "set" whole)
+	bodies = append(bodies, []byte{0x01, 0x2c, 0x00, 0x0a, 1, 2, 3, 4, 5, 6, 0xee, 0xee, 0xee, 0xee, 0xee})
+	// ... and two such inner sets
+	bodies = append(bodies, []byte{0x01, 0x2c, 0x00, 0x0a, 1, 2, 3, 4, 5, 6, 0x01, 0x2c, 0x00, 0x0a, 9, 9, 9, 9, 9, 9, 0xdd})
 	lo := 4
 	if e.v9 {
 		lo = 2
 	}
 	for id := lo; id <= 255; id++ {
 		for bi, b := range bodies {
-			if tier != "thorough" && id > lo+3 && id < 253 && bi != 0 && bi != 5 && bi != 10 {
+			if tier != "thorough" && id > lo+3 && id < 253 && bi != 0 && bi != 5 && bi < 10 {
 				continue // quick: all ids with 3 bodies, 7 boundary ids with all bodies
 			}
 			ps = append(ps, perturbation{fmt.Sprintf("reserved-id-%d/body%d", id, bi), ref.Set{Kind: ref.SetRaw, RawID: uint16(id), RawBody: b}})
